@@ -128,6 +128,30 @@ def forall(f, lo, hi):
     return ops.mk(z3.ForAll([j], z3.Implies(z3.And(j >= ops.z3int(lo), j < ops.z3int(hi)), body)), 'bool')
 
 
+def forall_char(f):
+    """f(c) for every one-character string c"""
+    if not HAVE_Z3:
+        return all(f(chr(i)) for i in list(range(0, 0x250)) + [0x2003, 0x3000, 0x212a])
+    j = _bound()
+    try:
+        body = ops.z3bool(f(SChar(j)))
+    finally:
+        _unbound()
+    return ops.mk(z3.ForAll([j], body), 'bool')
+
+
+def mkset(f, ek='char'):
+    """the set { c | f(c) }"""
+    if not HAVE_Z3:
+        return frozenset(chr(i) for i in range(0, 0x250) if f(chr(i)))
+    j = _bound()
+    try:
+        body = ops.z3bool(f(SChar(j) if ek == 'char' else Sym(j, 'int')))
+    finally:
+        _unbound()
+    return SSet(LAM(j, body), ek, None)
+
+
 def exists(f, lo, hi):
     if not _sym(lo, hi):
         return any(f(j) for j in range(lo, hi))
@@ -220,7 +244,23 @@ def the(x):
     return x
 
 
-NAMES = dict(isum=isum, rsum=rsum, cnt=cnt, ite=ite, implies=implies, iff=iff, And=And, Or=Or, Not=Not,
+def mkseq(f, n, ek='real'):
+    """the sequence [f(0), ..., f(n-1)]"""
+    if not _sym(n):
+        try:
+            return [f(j) for j in range(n)]
+        except TypeError:
+            pass
+    j = _bound()
+    try:
+        v = f(Sym(j, 'int'))
+        body = ops.z3real(v) if ek == 'real' else (ops.char_code(v) if ek == 'char' else ops.z3int(v))
+    finally:
+        _unbound()
+    return SSeq(LAM(j, body), 0, ops.z3int(n), 'list', ek)
+
+
+NAMES = dict(mkseq=mkseq, mkset=mkset, forall_char=forall_char, isum=isum, rsum=rsum, cnt=cnt, ite=ite, implies=implies, iff=iff, And=And, Or=Or, Not=Not,
              forall=forall, exists=exists, length=length, isin=isin, sqrt=sqrt, pow10=pow10, logb=logb,
              absv=absv, toreal=toreal, fdiv=fdiv, maxv=maxv, minv=minv, seq_eq=seq_eq, is_none=is_none,
              the=the, Fraction=Fraction)
